@@ -61,6 +61,7 @@ type detOpts struct {
 	Horizon time.Duration // virtual time slept after the script (default 1s)
 	NoStop  bool
 	Setup   func(s *streamsql.Streamsql) error // after Execute, before the script (tables, ...)
+	SinkDelay time.Duration // virtual time the recording sync sink takes per batch (a lagging consumer)
 }
 
 // detExec runs one query instance under the scheduler's default (deterministic) schedule with
@@ -90,6 +91,9 @@ func detExec(sql string, o detOpts, script func(e *Env)) detResult {
 			r.Batches = append(r.Batches, copyBatch(rows))
 			r.AtOps = append(r.AtOps, e.Ops)
 			r.AtNs = append(r.AtNs, sched.Cur().Elapsed())
+			if o.SinkDelay > 0 {
+				vtime.Sleep(o.SinkDelay)
+			}
 		})
 		script(e)
 		h := o.Horizon
